@@ -1,0 +1,68 @@
+//go:build verif
+
+package sm2
+
+import "encoding/asn1"
+
+// Access to encoding/asn1.Unmarshal with the unexported destination types of this
+// package for the verification harness (/verif, property C18; the schemas of these
+// types are translated into coq/Gen/Asn1Schemas.v).  Nothing here changes behaviour.
+//
+// A root name is "sm2." followed by the Go type expression as written inside this
+// package.
+
+// verifAsn1New returns a pointer to a fresh zero value of the named root type, nil
+// if the name is unknown; modelled tells whether Gen/Asn1Schemas.v has a schema.
+func verifAsn1New(name string) (dst interface{}, modelled bool) {
+	switch name {
+	case "sm2.sm2Signature": // SignDataToSignDigit (utils.go)
+		return new(sm2Signature), true
+	case "sm2.sm2Cipher": // CipherUnmarshal (sm2.go)
+		return new(sm2Cipher), true
+	}
+	return nil, false
+}
+
+var verifAsn1AllNames = []string{"sm2.sm2Signature", "sm2.sm2Cipher"}
+
+func verifAsn1Select(modelled bool) []string {
+	var out []string
+	for _, n := range verifAsn1AllNames {
+		if dst, m := verifAsn1New(n); dst != nil && m == modelled {
+			out = append(out, n)
+		}
+	}
+	return out
+}
+
+// VerifAsn1Names lists the root names this package can unmarshal into and that have a
+// schema in Gen/Asn1Schemas.v (same strings, without guarantee of order).
+func VerifAsn1Names() []string { return verifAsn1Select(true) }
+
+// VerifAsn1Unmodelled lists the root names VerifAsn1Unmarshal also accepts (real
+// destinations of asn1.Unmarshal in this package) that have no schema in
+// Gen/Asn1Schemas.v (none at present).
+func VerifAsn1Unmodelled() []string { return verifAsn1Select(false) }
+
+// VerifAsn1Unmarshal calls encoding/asn1.Unmarshal(b, p), p a pointer to a fresh zero
+// value of the named root type, and returns what it returns; known=false if the name
+// is neither one of VerifAsn1Names nor one of VerifAsn1Unmodelled.
+func VerifAsn1Unmarshal(name string, b []byte) (rest []byte, err error, known bool) {
+	dst, _ := verifAsn1New(name)
+	if dst == nil {
+		return nil, nil, false
+	}
+	rest, err = asn1.Unmarshal(b, dst)
+	return rest, err, true
+}
+
+// VerifAsn1UnmarshalValue is VerifAsn1Unmarshal that also hands back the decoded value
+// (the pointer passed to asn1.Unmarshal), for drivers that compare field contents.
+func VerifAsn1UnmarshalValue(name string, b []byte) (val interface{}, rest []byte, err error, known bool) {
+	dst, _ := verifAsn1New(name)
+	if dst == nil {
+		return nil, nil, nil, false
+	}
+	rest, err = asn1.Unmarshal(b, dst)
+	return dst, rest, err, true
+}
